@@ -117,7 +117,10 @@ Definition bs_copy_from (mok : Z -> bool) (a : arena) (b o : bitset) : verr * ar
     let fin (a2 : arena) (b1 : bitset) :=
       (EOk, a2, mkbs (b_data b1) (wcombine (fun _ s => s) (b_words b1) (b_words o) 0 (Z.to_nat (words_per_bits new_size))) new_size (b_cap b1)) in
     if new_size >? b_cap b then
-      match alloc_reusable mok a ((((new_size + 63) / 64) * 64) / 8) with
+      let min_bits := (((new_size + 63) / 64) * 64) mod 2 ^ 64 in
+      if min_bits <? new_size then (EOutOfMemory, a, b)
+      else
+      match alloc_reusable mok a (min_bits / 8) with
       | (None, a1) => (EOutOfMemory, a1, b)
       | (Some (p, asz), a1) =>
         let cap_bits := asz * 8 in
